@@ -231,6 +231,28 @@ Definition layout_mismatches (T : list cstruct) (E : exceptions) (cpp : list cst
   (if Nat.eqb (List.length cpp) (List.length py) then [] else [("struct-lists-differ-in-length", "", "", List.length cpp, List.length py)]) ++
   flat_map (fun cp => struct_mismatches T E (fst cp) (snd cp)) (combine cpp py).
 
+(* ---- several ways of reading the same payload (explicit version, default version, through the decoder) ---------- *)
+(* two probe rows of the same struct name the same fixed attributes on every byte that could be observed on both paths
+   (a byte whose every perturbation raised on one path has no attribute observation there) *)
+Definition byte_same_fixed (a b : pbyte) : bool :=
+  Nat.eqb (pb_observed a) 0 || Nat.eqb (pb_observed b) 0 || list_eqb String.eqb (pb_fixed a) (pb_fixed b).
+Definition same_fixed (p q : pstruct) : bool :=
+  String.eqb (p_cpp p) (p_cpp q) && list_eqb byte_same_fixed (p_bytes p) (p_bytes q).
+
+Definition paths_mismatches (T : list cstruct) (E : exceptions) (cpp : list cstruct) (ref : list pstruct)
+           (paths : list (string * list pstruct)) : list (string * row) :=
+  flat_map (fun pt : string * list pstruct =>
+      (map (fun r : row => (fst pt, r)) (layout_mismatches T E cpp (snd pt)) ++
+       (if Nat.eqb (List.length ref) (List.length (snd pt)) then []
+        else [(fst pt, ("probe-tables-differ-in-length", "", "", 0, 0) : row)]) ++
+       map (fun pq : pstruct * pstruct => (fst pt, ("call-paths-observe-different-attributes", p_cpp (fst pq), "", 0, 0) : row))
+           (filter (fun pq : pstruct * pstruct => negb (same_fixed (fst pq) (snd pq))) (combine ref (snd pt))))%list)
+    paths.
+
+Definition paths_agree (T : list cstruct) (E : exceptions) (cpp : list cstruct) (ref : list pstruct)
+           (paths : list (string * list pstruct)) : bool :=
+  forallb (fun pt => forallb2 (struct_agree T E) cpp (snd pt) && forallb2 same_fixed ref (snd pt)) paths.
+
 (* ---- the statement, per struct and per member --------------------------------------------------------- *)
 Definition layouts_agree_spec (T : list cstruct) (E : exceptions) (cpp : list cstruct) (py : list pstruct) : Prop :=
   List.length cpp = List.length py /\
